@@ -10,9 +10,12 @@ NOTE = ("trusted: gosym interpreter and simplifier (cross-checked on every run b
 
 # id -> (claimed text, design_ref) ; absent => not_applicable with reason
 CLAIMED = {
+ "C09": ("(a) cellLength == bytes consumed by CellBytes for every supported type over its whole metadata domain (metadata and cell bytes symbolic; NEWDECIMAL via concrete (p,s)); (b) binlogEvent.Rows on events from an independent writer: row count, presence bitmaps, NULL bitmaps and every before/after image byte-for-byte, images consumed exactly by the per-type length rule, for write/update/delete, v1/v2, 4/6-byte table ids, extra data, all presence/NULL patterns of 2-3 column tables and pattern-sampled 9/17-column tables, 0..2 rows", "DESIGN.md 3/C09"),
  "C10": ("CellBytes numeric cases against an independent two's-complement / unsigned reference for the ENTIRE 8/16/24/32/64-bit domains in both signedness modes (text must be canonical decimal that parses to the exact value), FLOAT/DOUBLE round-trip through strconv's documented shortest-representation contract, YEAR, BIT(1..64) with symbolic metadata, ENUM 1-2 bytes, SET 1..8 bytes; every cell byte is a solver variable", "DESIGN.md 3/C10"),
  "C11": ("CellBytes NEWDECIMAL for (p,s) pairs (quick: all p<=20 plus group-boundary precisions, 278 pairs; thorough: all 1580 valid pairs): every storage byte symbolic, every representable value; the text is scanned ('-', canonical integer digits, '.', exactly s digits) and every 9-digit group proved equal to the reference from MySQL decimal.c; cellLength agreement included", "DESIGN.md 3/C11"),
  "C12": ("CellBytes DATE/NEWDATE, old TIME/DATETIME/TIMESTAMP, TIMESTAMP2/DATETIME2/TIME2 with fsp 0..6: output text scanned field by field (separators, widths, digits) and every numeric field proved equal to a reference decoder written from MySQL's my_time.c, for all cell bytes denoting valid values (all 2^24..2^48 raw values symbolic); TIMESTAMP fields are the Local-zone calendar fields (uninterpreted functions of (zone, instant))", "DESIGN.md 3/C12"),
+ "C13": ("CellBytes for VARCHAR/VAR_STRING/STRING/TINY..LONG BLOB/GEOMETRY with symbolic metadata (decides 1..4 prefix bytes), symbolic prefix and payload in buffers of 40 and 300 bytes (thorough 1200): value is non-nil, has exactly the logged length and its i-th byte is the logged byte for a universally quantified index i; consumed = prefix+length; cellLength agrees", "DESIGN.md 3/C13"),
+ "C15": ("binlogEvent.TableMap/TableID on events from an independent writer: names (0..255 bytes), flags, 4/6-byte table ids, 1-2 (thorough 3) columns over ALL pairs of the 31 supported types with symbolic metadata bytes (byte order per type), nullability bits, trailing optional-metadata bytes, and 250/251/252 (thorough 300/600) columns with multi-byte column counts. Attribution/caching in parseEvents is covered by the event-model harness (see C02/C04 family) when claimed", "DESIGN.md 3/C15"),
  "C17": ("IsValid <=> len>=19 && length field == len, and all header accessors agree with the header bytes, for every byte string of each length 0..64 (thorough 0..300): every byte is a solver variable, every obligation is an unsat query", "DESIGN.md 3/C17"),
 }
 NA_DEFAULT = "not yet reached by the encoder (build in progress)"
